@@ -1,11 +1,12 @@
 (** C08 proofs, part 1: the reader (consume / fields_loop / iter_lines of
-    Deb822/Model.v) on the lines of ANY paragraph whose head lines are
-    "name:rest" and whose continuation lines start with space/tab - the shape
-    the dump of accepted values has.  Part 2 (InjectProofs2.v) ties this shape to
-    [dump] and [validate_input]. *)
+    Deb822/Model.v) on the raw lines of ANY paragraph whose head lines are
+    "name:rest" and whose continuation lines start with space/tab, possibly with
+    CRs inside (the file-object form) - the shape the dump of accepted values
+    has.  Part 2 (InjectProofs2.v) ties this shape to [dump], [validate_input]
+    and the two input forms. *)
 From Coq Require Import Lia ZifyBool.
 From Verif Require Import Lib.Base Lib.PyStr Gen.PyChars Deb822.Model Deb822.Spec
-  Deb822.InjectSpec Deb822.ProofsStr Deb822.InjectStr.
+  Deb822.InjectSpec Deb822.ProofsStr Deb822.InjectStr Deb822.InjectBrk.
 
 Local Open Scope N_scope.
 
@@ -62,28 +63,18 @@ Proof.
   now rewrite N.eqb_refl.
 Qed.
 
-Lemma no_linebreak_rstrip' p l : no_linebreak l = true -> no_linebreak (rdropwhile p l) = true.
-Proof. apply rdropwhile_forallb. Qed.
-
-Lemma no_linebreak_lstrip' p l : no_linebreak l = true -> no_linebreak (dropwhile p l) = true.
-Proof. apply dropwhile_forallb. Qed.
-
-Lemma no_linebreak_strip' p l : no_linebreak l = true -> no_linebreak (strip_by p l) = true.
-Proof.
-  intros H. unfold strip_by, lstrip_by, rstrip_by. now apply no_linebreak_rstrip', no_linebreak_lstrip'.
-Qed.
-
 (** visible text after the colon: _single matches, data = the trimmed text *)
 Lemma match_single_head k rest c r :
-  key_ok k = true -> no_linebreak rest = true -> dropwhile py_isspace rest = c :: r ->
+  key_ok k = true -> lf_free rest = true -> dropwhile py_isspace rest = c :: r ->
   match_single (k ++ COLON :: rest) = Some (k, strip_by py_isspace rest).
 Proof.
   intros Hk Hf Hd. unfold match_single. rewrite match_key_part_colon by exact Hk.
   rewrite Hd. unfold re_lazy_tail.
-  assert (Hr : no_linebreak r = true).
-  { pose proof (no_linebreak_lstrip' py_isspace rest Hf) as H. rewrite Hd in H.
-    rewrite no_linebreak_cons in H. apply andb_true_iff in H. tauto. }
-  unfold rstrip_by. rewrite (no_linebreak_mem_lf _ (no_linebreak_rstrip' py_isspace r Hr)).
+  assert (Hr : lf_free r = true).
+  { pose proof (dropwhile_forallb py_isspace _ rest Hf) as H. rewrite Hd in H.
+    cbn [forallb] in H. apply andb_true_iff in H. tauto. }
+  unfold rstrip_by.
+  rewrite (lf_free_mem_lf _ (rdropwhile_forallb py_isspace _ r Hr)).
   rewrite (strip_by_cons _ _ _ _ Hd). reflexivity.
 Qed.
 
@@ -97,17 +88,6 @@ Proof.
 Qed.
 
 (** * Continuation lines *)
-
-Definition cont_ok (l : str) : bool :=
-  match l with c :: _ => is_sp_tab c | [] => false end && no_linebreak l.
-
-Lemma cont_ok_inv l :
-  cont_ok l = true -> exists c r, l = c :: r /\ is_sp_tab c = true /\ no_linebreak r = true.
-Proof.
-  destruct l as [|c r]; [discriminate|]. unfold cont_ok. intros H.
-  apply andb_true_iff in H. destruct H as [H1 H2]. rewrite no_linebreak_cons in H2.
-  apply andb_true_iff in H2. exists c, r. tauto.
-Qed.
 
 Lemma match_key_part_sp c r : bytes_isspace c = true -> match_key_part (c :: r) = None.
 Proof. intros H. unfold match_key_part. cbn [span]. unfold key_char. rewrite H, orb_true_r. reflexivity. Qed.
@@ -127,14 +107,14 @@ Lemma match_multidata_cont l :
   cont_ok l = true ->
   match match_multidata l with Some _ => true | None => false end = kept_cont l.
 Proof.
-  intros H. destruct (cont_ok_inv l H) as (c & r & -> & Hc & Hr).
+  intros H. destruct (cont_ok_inv l H) as (c & r & -> & Hc & Hr & _).
   unfold match_multidata. rewrite (sp_tab_pyspace _ Hc).
   destruct r as [|r0 r']; [reflexivity|]. cbn [kept_cont].
   destruct (rstrip_by py_isspace (r0 :: r')) as [|p0 p] eqn:Ep.
-  - rewrite no_linebreak_cons in Hr. apply andb_true_iff in Hr. destruct Hr as [Hr0 _].
-    apply negb_true_iff in Hr0. now rewrite (no_lb_not_lf _ Hr0).
-  - pose proof (no_linebreak_rstrip' py_isspace _ Hr) as Hp. unfold rstrip_by in Ep. rewrite Ep in Hp.
-    now rewrite (no_linebreak_mem_lf _ Hp).
+  - cbn [lf_free forallb] in Hr. apply andb_true_iff in Hr. destruct Hr as [Hr0 _].
+    apply negb_true_iff in Hr0. now rewrite Hr0.
+  - pose proof (rdropwhile_forallb py_isspace _ _ Hr) as Hp. unfold rstrip_by in Ep. rewrite Ep in Hp.
+    now rewrite (lf_free_mem_lf _ Hp).
 Qed.
 
 (** * The PGP armour pattern *)
@@ -206,22 +186,23 @@ Proof.
   destruct Hc as [Hc|Hc]; apply N.eqb_eq in Hc; subst c; reflexivity.
 Qed.
 
-(** * The line-consuming loop on lines that are neither comments, nor blank,
-      nor armour *)
+(** * The line-consuming loop on raw lines that are neither comments, nor
+      blank, nor armour *)
 
-Definition okline (ws : bool) (l : str) : bool :=
-  no_linebreak l && negb (is_nil l) && negb (startswith [HASH] l) && negb (blank_line ws l)
-  && match match_gpgre l with None => true | Some _ => false end.
+Definition okraw (ws : bool) (l : str) : bool :=
+  negb (startswith [HASH] l) && negb (is_nil (rstrip_by is_crlf l))
+  && negb (blank_line ws (strip_crlf l))
+  && match match_gpgre (strip_crlf l) with None => true | Some _ => false end.
 
-Lemma okline_inv ws l :
-  okline ws l = true ->
-  no_linebreak l = true /\ is_nil l = false /\ startswith [HASH] l = false
-  /\ blank_line ws l = false /\ match_gpgre l = None.
+Lemma okraw_inv ws l :
+  okraw ws l = true ->
+  startswith [HASH] l = false /\ is_nil (rstrip_by is_crlf l) = false
+  /\ blank_line ws (strip_crlf l) = false /\ match_gpgre (strip_crlf l) = None.
 Proof.
-  unfold okline. intros H.
-  apply andb_true_iff in H. destruct H as [H H5]. apply andb_true_iff in H. destruct H as [H H4].
-  apply andb_true_iff in H. destruct H as [H H3]. apply andb_true_iff in H. destruct H as [H1 H2].
-  apply negb_true_iff in H2, H3, H4. destruct (match_gpgre l); [discriminate|]. tauto.
+  unfold okraw. intros H.
+  apply andb_true_iff in H. destruct H as [H H4]. apply andb_true_iff in H. destruct H as [H H3].
+  apply andb_true_iff in H. destruct H as [H1 H2].
+  apply negb_true_iff in H1, H2, H3. destruct (match_gpgre (strip_crlf l)); [discriminate|]. tauto.
 Qed.
 
 Lemma consume_cons' skip ws ab g l rest :
@@ -232,133 +213,47 @@ Lemma consume_cons' skip ws ab g l rest :
          if brk then (g', rest) else consume skip ws false g' rest.
 Proof. reflexivity. Qed.
 
-Lemma gpg_step_okline ws g l :
-  okline ws l = true -> g_state g = s_SAFE -> g_first g && blank_ws l = false ->
-  gpg_step ws g l = (mkG false s_SAFE (g_pre g) (g_lines g ++ [l]) (g_post g), false).
+Lemma gpg_step_okraw ws g l :
+  okraw ws l = true -> g_state g = s_SAFE -> g_first g && blank_ws (strip_crlf l) = false ->
+  gpg_step ws g l = (mkG false s_SAFE (g_pre g) (g_lines g ++ [strip_crlf l]) (g_post g), false).
 Proof.
-  intros Hl Hst Hfb. destruct (okline_inv ws l Hl) as (Hnl & _ & _ & Hb & Hg).
-  unfold gpg_step. rewrite (strip_crlf_id _ Hnl), Hfb, Hg, Hst.
+  intros Hl Hst Hfb. destruct (okraw_inv ws l Hl) as (_ & _ & Hb & Hg).
+  unfold gpg_step. rewrite Hfb, Hg, Hst.
   replace (str_eqb s_SAFE s_SAFE) with true by reflexivity.
   now rewrite Hb.
 Qed.
 
-Lemma consume_okline skip ws ab g l rest :
-  okline ws l = true -> g_state g = s_SAFE -> g_first g && blank_ws l = false ->
+Lemma consume_okraw skip ws ab g l rest :
+  okraw ws l = true -> g_state g = s_SAFE -> g_first g && blank_ws (strip_crlf l) = false ->
   consume skip ws ab g (l :: rest)
-  = consume skip ws false (mkG false s_SAFE (g_pre g) (g_lines g ++ [l]) (g_post g)) rest.
+  = consume skip ws false (mkG false s_SAFE (g_pre g) (g_lines g ++ [strip_crlf l]) (g_post g)) rest.
 Proof.
-  intros Hl Hst Hfb. destruct (okline_inv ws l Hl) as (Hnl & Hn & Hc & _ & _).
-  rewrite consume_cons', Hc, andb_false_r. rewrite (chomp_id _ Hnl), Hn, andb_false_r.
-  now rewrite gpg_step_okline.
+  intros Hl Hst Hfb. destruct (okraw_inv ws l Hl) as (Hc & Hn & _ & _).
+  rewrite consume_cons', Hc, andb_false_r. rewrite Hn, andb_false_r.
+  now rewrite gpg_step_okraw.
 Qed.
 
-Lemma consume_oklines skip ws ls : forall pre lines post,
-  forallb (okline ws) ls = true ->
+Lemma consume_okraws skip ws ls : forall pre lines post,
+  forallb (okraw ws) ls = true ->
   consume skip ws false (mkG false s_SAFE pre lines post) ls
-  = (mkG false s_SAFE pre (lines ++ ls) post, []).
+  = (mkG false s_SAFE pre (lines ++ map strip_crlf ls) post, []).
 Proof.
   induction ls as [|l ls IH]; intros pre lines post H.
   - cbn. now rewrite app_nil_r.
   - cbn [forallb] in H. apply andb_true_iff in H. destruct H as [Hl Hls].
-    rewrite consume_okline by (exact Hl || reflexivity). cbn [g_pre g_lines g_post].
-    rewrite IH by exact Hls. now rewrite <- app_assoc.
+    rewrite consume_okraw by (exact Hl || reflexivity). cbn [g_pre g_lines g_post].
+    rewrite IH by exact Hls. cbn [map]. now rewrite <- app_assoc.
 Qed.
 
 (** the whole line list is one paragraph *)
 Lemma consume_all skip ws l ls :
-  forallb (okline ws) (l :: ls) = true -> blank_ws l = false ->
-  consume skip ws true gpg_init (l :: ls) = (mkG false s_SAFE [] (l :: ls) [], []).
+  forallb (okraw ws) (l :: ls) = true -> blank_ws (strip_crlf l) = false ->
+  consume skip ws true gpg_init (l :: ls)
+  = (mkG false s_SAFE [] (map strip_crlf (l :: ls)) [], []).
 Proof.
   intros H Hb. cbn [forallb] in H. apply andb_true_iff in H. destruct H as [Hl Hls].
-  rewrite consume_okline; [|exact Hl|reflexivity|cbn [gpg_init g_first andb]; exact Hb].
-  cbn [gpg_init g_pre g_lines g_post app]. now rewrite consume_oklines.
-Qed.
-
-(** * validate_input on a value assembled by the parser *)
-
-Lemma value_of_cons' first c conts : value_of first (c :: conts) = first ++ LF :: value_of c conts.
-Proof. unfold value_of. cbn [map concat]. cbn [app]. reflexivity. Qed.
-
-Lemma value_of_nil' first : value_of first [] = first.
-Proof. unfold value_of. cbn. apply app_nil_r. Qed.
-
-Lemma cont_ok_no_linebreak l : cont_ok l = true -> no_linebreak l = true.
-Proof. unfold cont_ok. intros H. apply andb_true_iff in H. tauto. Qed.
-
-Lemma cont_ok_nonnil l : cont_ok l = true -> l <> [].
-Proof. destruct l; [discriminate|discriminate]. Qed.
-
-Lemma endswith1_app_nonnil' x a b : b <> [] -> endswith [x] (a ++ b) = endswith [x] b.
-Proof.
-  intros Hb. unfold endswith. rewrite rev_app_distr.
-  destruct (rev b) as [|c t] eqn:E.
-  - exfalso. apply Hb. apply (f_equal (@rev N)) in E. now rewrite rev_involutive in E.
-  - reflexivity.
-Qed.
-
-Lemma endswith_lf_no_linebreak' l : no_linebreak l = true -> endswith [LF] l = false.
-Proof.
-  intros H. unfold endswith. destruct (rev l) as [|c t] eqn:E; [reflexivity|].
-  cbn [rev app startswith].
-  assert (Hc : In c l) by (apply in_rev; rewrite E; now left).
-  unfold no_linebreak in H. rewrite forallb_forall in H. specialize (H c Hc).
-  apply negb_true_iff in H. rewrite N.eqb_sym. now rewrite (no_lb_not_lf _ H).
-Qed.
-
-Lemma value_of_nonnil c conts : c <> [] -> value_of c conts <> [].
-Proof. unfold value_of. destruct c; [congruence|discriminate]. Qed.
-
-Lemma endswith_lf_value conts : forall first,
-  no_linebreak first = true -> forallb cont_ok conts = true ->
-  endswith [LF] (value_of first conts) = false.
-Proof.
-  induction conts as [|c conts IH]; intros first Hf Hc.
-  - rewrite value_of_nil'. now apply endswith_lf_no_linebreak'.
-  - cbn [forallb] in Hc. apply andb_true_iff in Hc. destruct Hc as [Hc Hcs].
-    rewrite value_of_cons'.
-    change (first ++ LF :: value_of c conts) with (first ++ [LF] ++ value_of c conts).
-    rewrite app_assoc, endswith1_app_nonnil'
-      by (apply value_of_nonnil; now apply cont_ok_nonnil).
-    apply IH; [now apply cont_ok_no_linebreak|exact Hcs].
-Qed.
-
-Lemma splitlines_value_conts conts : forall c,
-  cont_ok c = true -> forallb cont_ok conts = true ->
-  splitlines_aux py_islinebreak false (value_of c conts) [] = c :: conts.
-Proof.
-  induction conts as [|c2 conts IH]; intros c Hc Hcs.
-  - rewrite value_of_nil', splitlines_aux_last by now apply cont_ok_no_linebreak.
-    cbn [rev app]. destruct c; [discriminate|reflexivity].
-  - cbn [forallb] in Hcs. apply andb_true_iff in Hcs. destruct Hcs as [Hc2 Hcs].
-    rewrite value_of_cons', splitlines_aux_line; [|now apply cont_ok_no_linebreak|reflexivity].
-    cbn [rev app]. rewrite app_nil_r. now rewrite IH.
-Qed.
-
-Lemma splitlines_value_tl first conts :
-  no_linebreak first = true -> forallb cont_ok conts = true ->
-  tl (splitlines py_islinebreak false (value_of first conts)) = conts.
-Proof.
-  intros Hf Hcs. unfold splitlines. destruct conts as [|c conts].
-  - rewrite value_of_nil', splitlines_aux_last by exact Hf. cbn [rev app]. destruct first; reflexivity.
-  - cbn [forallb] in Hcs. apply andb_true_iff in Hcs. destruct Hcs as [Hc Hcs].
-    rewrite value_of_cons', splitlines_aux_line; [|exact Hf|reflexivity]. cbn [tl].
-    now apply splitlines_value_conts.
-Qed.
-
-Lemma check_cont_lines_cont_ok conts : forallb cont_ok conts = true -> check_cont_lines conts = Ok tt.
-Proof.
-  induction conts as [|l conts IH]; [reflexivity|]. intros H.
-  cbn [forallb] in H. apply andb_true_iff in H. destruct H as [Hl Hc].
-  destruct (cont_ok_inv l Hl) as (c & r & -> & Hsp & _). cbn [check_cont_lines].
-  rewrite (sp_tab_pyspace _ Hsp). now apply IH.
-Qed.
-
-Theorem validate_value first conts :
-  no_linebreak first = true -> forallb cont_ok conts = true ->
-  validate_input (value_of first conts) = Ok tt.
-Proof.
-  intros Hf Hc. unfold validate_input. rewrite endswith_lf_value by assumption.
-  rewrite splitlines_value_tl by assumption. now apply check_cont_lines_cont_ok.
+  rewrite consume_okraw; [|exact Hl|reflexivity|cbn [gpg_init g_first andb]; exact Hb].
+  cbn [gpg_init g_pre g_lines g_post app]. now rewrite consume_okraws.
 Qed.
 
 (** * dict_set on a fresh key *)
@@ -392,7 +287,7 @@ Definition pkey (e : pentry) : str := fst (fst e).
 Definition plines (e : pentry) : list str :=
   match e with (k, rest, conts) => (k ++ COLON :: rest) :: conts end.
 Definition pentry_ok (e : pentry) : bool :=
-  match e with (k, rest, conts) => key_ok k && no_linebreak rest && forallb cont_ok conts end.
+  match e with (k, rest, conts) => key_ok k && piece_ok rest && forallb cont_ok conts end.
 (** the value the reader assembles *)
 Definition pvalue (e : pentry) : str :=
   match e with (k, rest, conts) => value_of (strip_by py_isspace rest) (filter kept_cont conts) end.
@@ -400,7 +295,7 @@ Definition ppara (es : list pentry) : dict := map (fun e => (pkey e, pvalue e)) 
 
 Lemma pentry_ok_inv k rest conts :
   pentry_ok (k, rest, conts) = true ->
-  key_ok k = true /\ no_linebreak rest = true /\ forallb cont_ok conts = true.
+  key_ok k = true /\ piece_ok rest = true /\ forallb cont_ok conts = true.
 Proof.
   unfold pentry_ok. intros H. apply andb_true_iff in H. destruct H as [H H3].
   apply andb_true_iff in H. tauto.
@@ -416,7 +311,7 @@ Qed.
 Lemma pvalue_valid e : pentry_ok e = true -> validate_input (pvalue e) = Ok tt.
 Proof.
   destruct e as [[k rest] conts]. intros H. destruct (pentry_ok_inv _ _ _ H) as (_ & Hr & Hc).
-  apply validate_value; [now apply no_linebreak_strip'|now apply forallb_filter].
+  apply validate_value; [now apply piece_ok_strip|now apply forallb_filter].
 Qed.
 
 Lemma fields_loop_conts' cs : forall d ck content rest,
@@ -445,7 +340,8 @@ Proof.
   - destruct (match_single_head_blank k rest Hk Hd) as [H1 H2]. rewrite H1, H2.
     destruct (flush d ck content) as [d'|e]; [|reflexivity]. cbn [bind].
     rewrite fields_loop_conts' by exact Hc. rewrite (strip_by_blank _ _ Hd). reflexivity.
-  - rewrite (match_single_head k rest c r Hk Hr Hd).
+  - destruct (piece_ok_inv _ Hr) as (Hlf & _).
+    rewrite (match_single_head k rest c r Hk Hlf Hd).
     destruct (flush d ck content) as [d'|e]; [|reflexivity]. cbn [bind].
     rewrite fields_loop_conts' by exact Hc. reflexivity.
 Qed.
@@ -497,12 +393,15 @@ Proof.
   unfold blank_ws. cbn [app forallb]. now rewrite (key_char_not_space _ Hc).
 Qed.
 
-Theorem iter_lines_para ws es :
+(** [raw]: the lines as the iterator yields them (line ends still on, in the
+    file-object form); stripped of CR/LF at both ends they are the lines of [es] *)
+Theorem iter_lines_para ws es raw :
   es <> [] -> forallb pentry_ok es = true -> distinct_keys (map pkey es) = true ->
-  forallb (okline ws) (concat (map plines es)) = true ->
-  iter_lines CDeb822 ws (concat (map plines es)) = Ok [ppara es].
+  map strip_crlf raw = concat (map plines es) ->
+  forallb (okraw ws) raw = true ->
+  iter_lines CDeb822 ws raw = Ok [ppara es].
 Proof.
-  intros Hne Hes Hd Hok.
+  intros Hne Hes Hd Hraw Hok.
   pose proof (fields_loop_para es Hes Hd) as Hfl.
   destruct es as [|e es]; [congruence|].
   assert (Hb : exists l ls, concat (map plines (e :: es)) = l :: ls /\ blank_ws l = false).
@@ -510,7 +409,9 @@ Proof.
     apply head_line_not_blank. cbn [forallb] in Hes. apply andb_true_iff in Hes. destruct Hes as [He _].
     now destruct (pentry_ok_inv _ _ _ He). }
   destruct Hb as (l & ls & El & Hbl). rewrite El in *.
+  destruct raw as [|r0 raw]; [discriminate|]. cbn [map] in Hraw. injection Hraw as Hr0 Hraw.
   unfold iter_lines. cbn [length iter_loop init_of]. unfold deb822_init at 1.
-  rewrite consume_all by assumption. cbn [g_lines]. rewrite Hfl. cbn [bind ppara map].
-  destruct ls as [|l2 ls]; cbn [length iter_loop init_of]; unfold deb822_init; cbn; reflexivity.
+  rewrite consume_all; [|exact Hok|now rewrite Hr0].
+  cbn [g_lines map]. rewrite Hr0, Hraw, Hfl. cbn [bind ppara map].
+  destruct raw as [|r1 raw]; cbn [length iter_loop init_of]; unfold deb822_init; cbn; reflexivity.
 Qed.
